@@ -125,9 +125,12 @@ class Case:
         self.vars = []      # (lb, ub, int, cls)
         self.ops = []       # token lists (strings), without leading 'op'
         self.kinds = []
+        self.opts = []      # (name, 0|1) converter options set before the variables
 
     def lines(self):
         L = ['case %s' % self.cid]
+        for nm, v in self.opts:
+            L.append('opt %s %d' % (nm, v))
         for lb, ub, ii, _ in self.vars:
             L.append('var %s %s %d' % (tok(lb), tok(ub), 1 if ii else 0))
         for o in self.ops:
@@ -147,6 +150,9 @@ def gen_case(r, cid, focus=None):
     """one case: 2..6 original variables, 1..7 operations; arguments are original variables or `$k` results.
     Tracks a conservative mantissa-size estimate so that every double operation of the real code is exact."""
     c = Case(cid)
+    for nm in ('eqresult', 'eqbinary', 'unnest'):
+        if r.chance(1, 6):
+            c.opts.append((nm, 0))
     nv = r.rint(2, 6)
     bits = []
     for _ in range(nv):
@@ -159,7 +165,7 @@ def gen_case(r, cid, focus=None):
     log_touched = set()
     nops = r.rint(1, 7)
     kinds_all = ['lin', 'lin', 'quad', 'quad', 'pow', 'pow', 'pow', 'min', 'max', 'abs', 'abs', 'div', 'div', 'ifthen', 'clin', 'clin',
-                 'clin', 'cquad', 'and', 'or', 'not', 'impl', 'alldiff', 'count', 'nvar', 'nconst', 'tr', 'expa', 'loga', 'powf']
+                 'clin', 'cquad', 'and', 'or', 'not', 'impl', 'alldiff', 'count', 'nvar', 'nconst', 'tr', 'expa', 'loga', 'powf', 'eqbin']
     for k in range(nops):
         kind = focus if (focus and r.chance(2, 3)) else r.choice(kinds_all)
         small = [x for x in refs if x[1] <= 14]
@@ -296,6 +302,16 @@ def gen_case(r, cid, focus=None):
             ck = r.choice([-2, -1, 0, 0, 1, 2])
             rhs = dyadic(r, maxm=12, int_bias=1)
             op = ['clin', str(ck), tok(rhs)] + lin_tokens(ts)
+            is_logical = True
+        elif kind == 'eqbin' and logical:
+            # var == const on a binary / fixed 0-1 variable: reuse, complement, impossible value, fixed result
+            v = pick(logical)
+            co = r.choice([F(1), F(1), F(2), F(-1), F(1, 2), F(-2)])
+            rhs = co * r.choice([F(0), F(1), F(1), F(0), F(2), F(1, 2)])
+            op = ['clin', '0', tok(rhs), '1', tok(co), v[0]]
+            is_logical = True
+        elif kind == 'cquad' and small and r.chance(1, 12):
+            op = ['cquad', str(r.choice([-2, -1, 0, 0, 0, 1, 2])), tok(dyadic(r, maxm=3)), '0', '0']      # empty body
             is_logical = True
         elif kind == 'cquad' and small:
             ts = lin_terms(small, n=r.rint(0, 2), allow_zero=False)
